@@ -21,6 +21,7 @@ KINDS = {
     15: (1, U64, "UnifiedMemoryList::Memory64"),
     16: (1, U64, "UnifiedMemoryInfoList::Info"),
     17: (2, U64, "UnifiedMemoryInfoList::Maps"),
+    18: (1, 0xFFFFFFFF, "MinidumpModuleList::read (stream bytes: read-time filter + from_modules)"),
     42: (7, 0xFFFFFFFF, "STACK WIN frame-data table (insert_win_stack_info + parser-local builder)"),
     43: (7, 0xFFFFFFFF, "STACK WIN FPO table (insert_win_stack_info + parser-local builder)"),
 }
